@@ -130,11 +130,17 @@ class Canvas:
         self.names = [getattr(t, "name", None) for t in tensors]
         self.acts = []
         self.updates_at_act = []
+        self.loop_vars = []
 
     def addActivity(self, *points, spacetime=None, **kw):
         from . import hfmodel
         self.acts.append((points, spacetime))
         self.updates_at_act.append(hfmodel.STATS["update"])
+        # the emitted program runs at module level: its loop variables are globals of the namespace it was exec'ed in
+        ns = getattr(self.rec, "ns", None)
+        watch = getattr(self.rec, "watch", None)
+        if ns is not None and watch:
+            self.loop_vars.append({k: ns[k] for k in watch if k in ns})
 
 
 def api(rec):
